@@ -56,6 +56,7 @@ type c03Case struct {
 	SB     int      `json:"sb"`
 	Ops    []c03Op  `json:"ops"`
 	Dir    string   `json:"dir"`
+	Reopen bool     `json:"reopen"` // link mode: close, hdf5.Open, Walk at the end
 }
 
 // memFile: io.ReaderAt + io.WriterAt over a byte slice (zero-extends like os.File.WriteAt).
@@ -206,7 +207,8 @@ func c03Link(c *c03Case) (interface{}, error) {
 		return nil, err
 	}
 	defer os.RemoveAll(tmp)
-	fw, err := hdf5.CreateForWrite(filepath.Join(tmp, "f.h5"), hdf5.CreateTruncate, hdf5.WithSuperblockVersion(uint8(c.SB)))
+	fpath := filepath.Join(tmp, "f.h5")
+	fw, err := hdf5.CreateForWrite(fpath, hdf5.CreateTruncate, hdf5.WithSuperblockVersion(uint8(c.SB)))
 	if err != nil {
 		return map[string]interface{}{"create_error": err.Error()}, nil
 	}
@@ -300,7 +302,39 @@ func c03Link(c *c03Case) (interface{}, error) {
 		}
 		rcs = append(rcs, [2]uint64{a, uint64(rc)})
 	}
-	return map[string]interface{}{"results": results, "groups": final, "refcounts": rcs}, nil
+	out := map[string]interface{}{"results": results, "groups": final, "refcounts": rcs}
+	if c.Reopen {
+		// what the reader shows: Close, Open, Walk (paths, kinds, object addresses in walk order)
+		if err := fw.Close(); err != nil {
+			out["close_error"] = err.Error()
+		}
+		func() {
+			defer func() {
+				if rec := recover(); rec != nil {
+					out["open_panic"] = fmt.Sprint(rec)
+				}
+			}()
+			f, err := hdf5.Open(fpath)
+			if err != nil {
+				out["open_error"] = err.Error()
+				return
+			}
+			defer f.Close()
+			walk := [][3]interface{}{}
+			f.Walk(func(p string, obj hdf5.Object) {
+				switch o := obj.(type) {
+				case *hdf5.Group:
+					walk = append(walk, [3]interface{}{hex.EncodeToString([]byte(p)), "g", o.VerifAddress()})
+				case *hdf5.Dataset:
+					walk = append(walk, [3]interface{}{hex.EncodeToString([]byte(p)), "d", o.Address()})
+				default:
+					walk = append(walk, [3]interface{}{hex.EncodeToString([]byte(p)), fmt.Sprintf("%T", obj), 0})
+				}
+			})
+			out["walk"] = walk
+		}()
+	}
+	return out, nil
 }
 
 func init() {
